@@ -87,6 +87,7 @@ def run_path(spec, fnode, script):
   # condition under which each declared exception is due, over the entry state
   raise_conds = {exn: ex.eval_spec(c, env) for exn, c in spec.raises.items()}
   ex.old_env, ex.old_store = old_env, dict(ex.store)
+  ex.param_terms = {p: old_env.lookup(p) for p, _ in list(spec.params) + list(spec.free)}
   outcome = None
   try:
     try:
@@ -154,6 +155,7 @@ def verify_function(spec, budget_s=20.0):
       for alt in ex.alternatives:
         work.append(alt)
       for ob in ex.obligations:
+        ob.param_terms = getattr(ex, 'param_terms', None)
         if ob.key + '|' + str(hash(ob.goal.sexpr())) in seen:
           continue
         seen[ob.key + '|' + str(hash(ob.goal.sexpr()))] = True
@@ -167,11 +169,35 @@ def verify_function(spec, budget_s=20.0):
     real = [o for o in res.obligations if o.kind != 'canary']
     res.obligations = real
     solve.discharge(real, budget_s)
+    # counter-models: concretise and replay on the real code
+    from . import native
+    res.ce = []
+    for ob in real:
+      if ob.status == 'sat' and getattr(ob, 'model', None) is not None and ob.param_terms and len(res.ce) < 3:
+        model = ob.model
+        try:  # prefer a small counter-model
+          sb = []
+          for p_, s_ in list(spec.params) + list(spec.free):
+            sb.extend(native.size_bounds(s_, ob.param_terms[p_].t))
+          sm = z3.Solver()
+          sm.set('timeout', 5000)
+          for a_ in ob.assumptions:
+            sm.add(a_)
+          sm.add(z3.Not(ob.goal))
+          for b_ in sb:
+            sm.add(b_)
+          if sm.check() == z3.sat:
+            model = sm.model()
+        except Exception:
+          pass
+        verdict, info = native.replay_model(spec, model, ob.param_terms)
+        ob.ce = (verdict, info.to_json() if verdict == 'confirmed' else info)
+        res.ce.append(ob)
     # vacuity: canaries must NOT be provable
     res.canary_ok = True
     res.canaries = len(canaries)
     for c in canaries:
-      solve.discharge([c], min(budget_s, 3.0), portfolio=False)
+      solve.discharge([c], min(budget_s, 1.5), portfolio=False)
       if c.status == 'unsat':
         res.canary_ok = False
         res.notes.append(f'VACUOUS: assumptions on path {c.sig} are contradictory')
